@@ -2,6 +2,7 @@
 //! `runes` (C22, C23) runs real wallet commands against
 //! mockcore's wallet emulation and a live ord server, in worker processes
 //! (ord's server and CLI keep process-global state).
+pub mod batch;
 pub mod builder;
 pub mod env;
 pub mod offers;
@@ -35,6 +36,21 @@ pub fn worker(args: &[String]) -> i32 {
         let o = match util::catch(|| runes::run(sc, &format!("{property}-{shard}"))) {
           Ok(o) => o,
           Err(p) => runes::Outcome { violations: vec![("MACHINERY", "harness-panic".into(), p)], label: "harness-panic".into() },
+        };
+        let line = json!({"index": i, "scenario": sc.json(), "label": o.label, "violations": o.violations.iter().map(|(p, c, w)| json!([p, c, w])).collect::<Vec<_>>()});
+        println!("RESULT {line}");
+      }
+      0
+    }
+    "batch" => {
+      let list = batch::scenarios(thorough);
+      for (i, sc) in list.iter().enumerate() {
+        if i % shards != shard || only.map(|o| o != i).unwrap_or(false) {
+          continue;
+        }
+        let o = match util::catch(|| batch::run(sc, &format!("{property}-{shard}"))) {
+          Ok(o) => o,
+          Err(p) => batch::Outcome { violations: vec![("MACHINERY", "harness-panic".into(), p)], label: "harness-panic".into() },
         };
         let line = json!({"index": i, "scenario": sc.json(), "label": o.label, "violations": o.violations.iter().map(|(p, c, w)| json!([p, c, w])).collect::<Vec<_>>()});
         println!("RESULT {line}");
@@ -131,6 +147,22 @@ pub fn run_in_workers(ctx: &Ctx, engine: &str, property: &'static str, total: us
   report.set("rule", rule.to_string());
   report.assume("environment = mockcore's wallet emulation (fundrawtransaction adds the largest unlocked wallet outputs first; signatures are not validated) and a live in-process ord server; effects are read back from the index after mining");
   report
+}
+
+pub fn run_c21(ctx: &Ctx) -> Report {
+  let n = batch::scenarios(ctx.thorough()).len();
+  let mut r = run_in_workers(
+    ctx,
+    "batch",
+    "C21",
+    n,
+    "complete product: batch files over mode {shared-output, separate-outputs, same-sat, satpoints} x entries {1,2(,3)} x parents {0,1(,2)} x postage {default(,546),20000} x first entry {plain, metadata+metaprotocol, delegate} x \
+     etching {none, premine(, terms only, premine+terms)} plus designated targets (satpoint / sat of a cardinal, reinscription of a wallet inscription, a foreign destination); the wallet holds two parent inscriptions, a third \
+     inscription, a runic output and cardinals; every file is run by the real `ord wallet batch`, commit and reveal are mined (commitments matured) and ids, locations, destinations, parents, entry attributes, parent ownership, \
+     commit/reveal inputs and the etched rune with its premine output are read back from the index",
+  );
+  r.assume("refusals by the planner (printed in `outcomes`) are not violations; the property quantifies over batches the planner accepts");
+  r
 }
 
 pub fn run_c22(ctx: &Ctx) -> Report {
